@@ -8,6 +8,8 @@ merge, `should_launch_backup`, `batched`, the callback helpers and the tenacity 
   exactly to the deadline of the earliest timer, so two completions scripted for the same instant are delivered in
   the same `asyncio.wait` round. If the loop would sleep forever with nothing scheduled, or virtual time / the number
   of loop iterations exceeds a bound, `Hang` is raised out of `run_until_complete` ("never hangs" detector).
+* futures created by the loop hash by creation number (see `SeqFuture`), so the iteration order of cubed's sets of
+  futures is reproducible; `hash_perm` selects among a few different legal orders.
 * `virtual_time(loop, ...)` installs the loop, replaces the module attribute `cubed.runtime.asyncio.time` by a shim
   reading the virtual clock (so `should_launch_backup` sees virtual durations) and, optionally, replaces the module
   attribute `cubed.runtime.asyncio.asyncio` by a proxy whose `wait` returns the *same* finished/pending sets but with a
@@ -31,11 +33,30 @@ class Hang(Exception):
     """The event loop would sleep forever (or exceeded its virtual-time / iteration bound)."""
 
 
+HASH_PERMS = ((1, 0), (7, 3), (11, 6), (13, 1), (5, 2), (3, 7))
+
+
+class SeqFuture(asyncio.Future):
+    """asyncio.Future whose hash is a function of its creation number instead of its memory address.
+
+    cubed keeps futures in sets (`pending`, the `finished` set returned by asyncio.wait) and iterates them, so the order in
+    which same-round completions are processed and in which backups are launched is an accident of object addresses.
+    With creation-number hashes the iteration order is the same in every process (replays reproduce), and a different
+    (multiplier, salt) gives a different - equally legal - order. Equality stays identity."""
+
+    __slots__ = ("_vp_hash",)
+
+    def __hash__(self):
+        return self._vp_hash
+
+
 class VirtualTimeLoop(asyncio.SelectorEventLoop):
     """Event loop whose clock only advances when the loop would otherwise sleep."""
 
-    def __init__(self, max_time: float = 1e6, max_iters: int = 2_000_000):
+    def __init__(self, max_time: float = 1e6, max_iters: int = 2_000_000, hash_perm: int = 0):
         super().__init__()
+        self._fut_seq = 0
+        self._hash_mult, self._hash_salt = HASH_PERMS[hash_perm % len(HASH_PERMS)]
         self._vt = 0.0
         self._vt_max = max_time
         self._iters = 0
@@ -68,6 +89,12 @@ class VirtualTimeLoop(asyncio.SelectorEventLoop):
 
     def time(self):
         return self._vt
+
+    def create_future(self):
+        f = SeqFuture(loop=self)
+        self._fut_seq += 1
+        f._vp_hash = self._fut_seq * self._hash_mult + self._hash_salt
+        return f
 
     @property
     def iterations(self):
